@@ -494,13 +494,24 @@ package internals
 
 // A provider factory (zhttp.Request, zjson.Decode) consumes its source: it may be invoked at most once.
 //@ ghost dpinvoked(Fn) Bool
+//@ specfun factdp(Fn) Iface
+//@ specfun facterr(Fn) Ptr as *ZogIssue
 //@ functype DpFactory(self)
 //@   requires[C15] not_invoked_twice: !dpinvoked(self)
+//@   names result0 == factdp(self)
+//@   names result1 == facterr(self)
 //@   modifies dpinvoked(self), srctag
 //@   ghost_update dpinvoked(self) := true
 //@   ghost_update srctag := dptag(box(result0))
 //@   ensures result1 != nil ==> result1.Code != ""
-//@   ensures !istype(result0, DpFactory)
+//@   ensures provider_is_no_factory: !istype(box(result0), DpFactory)
+
+// dptag NAMES the tag field of a map provider (set once at construction, never written afterwards).
+//@ func NewMapDataProvider(m, tag)
+//@   trusted
+//@   pure
+//@   ensures[C14] result != nil ==> dptag(result) == tag
+//@   ensures !istype(result, DpFactory)
 
 //@ func TryNewAnyDataProvider(val)
 //@   trusted
